@@ -232,9 +232,14 @@ func render(c *Case) map[string]string {
 	return files
 }
 
+// trailing renders the trailing comment of a constant: a line comment, or (for labels, deterministically from the
+// name) a block comment — both mean the same comment text
 func trailing(k AConst) string {
 	if k.Comment == "" {
 		return ""
+	}
+	if !k.Optout && !strings.Contains(k.Comment, "gomacro:") && len(k.Name)%2 == 0 {
+		return " /* " + k.Comment + " */"
 	}
 	return " // " + k.Comment
 }
